@@ -115,31 +115,38 @@ func c11pre() (*Bimap[int, int], *c11model) {
 	return b, m
 }
 
-func c11op(b *Bimap[int, int], m *c11model, op int) {
+// c11op runs one operation on the Bimap and the model. The operation's own post-conditions are
+// returned as a closure, to be checked AFTER the general probes: a lookup of the pair just added
+// would otherwise refresh any state the implementation keeps about recent lookups and hide a
+// stale one.
+func c11op(b *Bimap[int, int], m *c11model, op int) func() {
 	switch op {
 	case 0:
 		k, v := vInt("ak"), vInt("av")
 		b.Add(k, v)
 		m.add(k, v)
-		gv, ok := b.GetForward(k)
-		vAssert(ok && gv == v, "Add(k,v): afterwards forward(k) = v")
-		gk, ok2 := b.GetReverse(v)
-		vAssert(ok2 && gk == k, "Add(k,v): afterwards reverse(v) = k")
+		return func() {
+			gv, ok := b.GetForward(k)
+			vAssert(ok && gv == v, "Add(k,v): afterwards forward(k) = v")
+			gk, ok2 := b.GetReverse(v)
+			vAssert(ok2 && gk == k, "Add(k,v): afterwards reverse(v) = k")
+		}
 	case 1:
 		k := vInt("rk")
 		b.RemoveForward(k)
 		m.removeForward(k)
-		vAssert(!b.ContainsForward(k), "RemoveForward(k): k is gone")
+		return func() { vAssert(!b.ContainsForward(k), "RemoveForward(k): k is gone") }
 	case 2:
 		v := vInt("rv")
 		b.RemoveReverse(v)
 		m.removeReverse(v)
-		vAssert(!b.ContainsReverse(v), "RemoveReverse(v): v is gone")
+		return func() { vAssert(!b.ContainsReverse(v), "RemoveReverse(v): v is gone") }
 	case 3:
 		b.Clear()
 		m.clear()
-		vAssert(b.Len() == 0, "Clear: Len is 0")
+		return func() { vAssert(b.Len() == 0, "Clear: Len is 0") }
 	}
+	return func() {}
 }
 
 func VHBimapStep() {
@@ -147,8 +154,9 @@ func VHBimapStep() {
 	pk, pv := vInt("pk"), vInt("pv")
 	c11check(b, m, pk, pv, "pre-state")
 	op := vChoose("op", 4)
-	c11op(b, m, op)
+	post := c11op(b, m, op)
 	c11check(b, m, pk, pv, "after the operation")
+	post()
 	if len(m.ks) >= 3 && op == 0 {
 		vCover("bimap: Add on >= 2 pairs")
 	}
@@ -231,8 +239,9 @@ func VHBimapHist() {
 	pk, pv := vInt("pk"), vInt("pv")
 	k := vParam("K")
 	for i := 0; i < k; i++ {
-		c11op(b, m, vChoose("op", 4))
+		post := c11op(b, m, vChoose("op", 4))
 		c11check(b, m, pk, pv, "history")
+		post()
 	}
 	if len(m.ks) >= 2 {
 		vCover("bimap: history with >= 2 Adds")
